@@ -27,7 +27,7 @@ simset.inject(wpool, wabs)
 P = 'C12'
 BUDGETS = {'C12': (40, 900, 200)}
 LEVELS = {'C12': 'exploration'}
-PROBES = {'C12': ['proxy_pool', 'proxy_tunnel', 'proxy_tunnel_failed', 'cancel_just_notified', 'waiter_blocked', 'cancel_while_waiting', 'cancel_while_holding', 'cancel_while_connecting',
+PROBES = {'C12': ['proxy_pool', 'proxy_tunnel', 'proxy_tls_tunnel', 'proxy_tunnel_failed', 'cancel_just_notified', 'waiter_blocked', 'cancel_while_waiting', 'cancel_while_holding', 'cancel_while_connecting',
                   'connect_failed', 'remote_closed_idle', 'force_clean', 'reused_connection']}
 INFO = {'C12': {
     'rule': 'workload = (clients N in 2..6, hosts H in 1..3, per-host limit M in 1..3, per-client rounds with '
@@ -135,7 +135,11 @@ def run(tape, prop, tier):
                 # all traffic through an HTTP proxy: per-origin host keys on connections to the proxy address
                 net.add_host('proxy.test', '10.0.0.99')
                 net.listen('10.0.0.99', 3128, lambda conn: EchoPeer(h, conn))
-                pool = HTTPProxyConnectionPool(('proxy.test', 3128), max_host_count=M, resolver=resolver, max_count=max_count)
+                import ssl as _ssl
+                tls_ctx = _ssl.SSLContext(_ssl.PROTOCOL_TLS_CLIENT)
+                tls_ctx.check_hostname = False
+                tls_ctx.verify_mode = _ssl.CERT_NONE
+                pool = HTTPProxyConnectionPool(('proxy.test', 3128), max_host_count=M, resolver=resolver, max_count=max_count, ssl_context=tls_ctx)
             else:
                 pool = ConnectionPool(max_host_count=M, resolver=resolver, max_count=max_count)
             http = HTTPClient(connection_pool=pool)
@@ -175,7 +179,13 @@ def run(tape, prop, tier):
                 tag = ('%d.%d' % (ci, rnd)).encode()
                 try:
                     yield from conn.write(b'PING ' + tag + b'\n')
-                    line = yield from conn.readline()
+                    try:
+                        # (a TLS tunnel that died with an interrupted exchange is handed out again by the proxy pool and
+                        # reconnects to nowhere useful: a failed exchange of this client, no concern of the pool invariants)
+                        line = yield from asyncio.wait_for(conn.readline(), 60.0)
+                    except asyncio.TimeoutError:
+                        r.probes['exchange_timed_out'] += 1
+                        raise NetworkError('no answer')
                 except BaseException:
                     conn.close()    # an interrupted exchange leaves unread bytes: never reuse (as Session.abort does)
                     raise
@@ -249,17 +259,23 @@ def run(tape, prop, tier):
                                     give(ci, conn)
                             state[ci] = 'idle'
                             continue
-                        if style == 'tunnel':
+                        if style in ('tunnel', 'tls_tunnel'):
                             # a tunnel through the proxy (what https and ftp URLs need): CONNECT may be refused, answered with
-                            # rubbish, or be interrupted by a cancellation; whatever happens nothing may stay checked out
+                            # rubbish, or be interrupted by a cancellation; whatever happens nothing may stay checked out.
+                            # 'tls_tunnel': TLS is started inside the tunnel (simulated transport: a plaintext stub); the pool hands
+                            # out the wrapping TLS connection and must map it back at every check-in, also on its second use
+                            tls = style == 'tls_tunnel'
+                            if tls:
+                                key = (host, 443, True)
+                                waiting[ci] = key
                             try:
-                                conn = yield from pool.acquire_proxy(host, 80, use_ssl=False, tunnel=True)
+                                conn = yield from pool.acquire_proxy(host, 443 if tls else 80, use_ssl=tls, tunnel=True)
                             except (NetworkError, ProtocolError):
                                 r.probes['proxy_tunnel_failed'] += 1
                                 waiting.pop(ci, None)
                                 state[ci] = 'idle'
                                 continue
-                            r.probes['proxy_tunnel'] += 1
+                            r.probes['proxy_tls_tunnel' if tls else 'proxy_tunnel'] += 1
                         else:
                             try:
                                 conn = yield from pool.acquire(host, 80)
@@ -311,7 +327,7 @@ def run(tape, prop, tier):
                 finally:
                     finished.append(ci)
 
-            styles = ('raw', 'nowait', 'close', 'ctx', 'http') if not use_proxy else ('http', 'http', 'tunnel', 'raw', 'nowait', 'ctx')
+            styles = ('raw', 'nowait', 'close', 'ctx', 'http') if not use_proxy else ('http', 'http', 'tunnel', 'raw', 'nowait', 'ctx', 'tls_tunnel', 'tls_tunnel')
             answers = ('200', '200', '200', 'slow200', '403', '407close', 'garbage', 'close') if faults_on else ('200', '200', 'slow200')
             h.connect_answer = lambda: answers[tape.draw(len(answers), 'proxy.connect')]
             h.r = r
